@@ -227,10 +227,11 @@ def _closure_of(t):
 class Cov(object):
     """Result of a coverage query."""
 
-    def __init__(self, status, detail, sites=()):
+    def __init__(self, status, detail, sites=(), shape=None):
         self.status = status  # 'once' | 'never' | 'bad'
         self.detail = detail
         self.sites = list(sites)
+        self.shape = shape    # structural skeleton for sibling comparison
 
     def __repr__(self):
         return "<Cov %s %s>" % (self.status, self.detail)
@@ -339,7 +340,8 @@ def coverage(prog, body, src, family, start=0, region=None, ends=None, depth=0):
         if cnt is None:
             return Cov("bad", "no normal path through %s" % body.qname)
         if cnt == (1, 1):
-            return Cov("once", "exactly one %s call on every path" % fname, [body.loc(direct[0])])
+            return Cov("once", "exactly one %s call on every path" % fname, [body.loc(direct[0])],
+                       shape=("call", Callee(body.blocks[direct[0]]["term"]["func"]).name))
         return Cov("bad", "%s call count on normal paths of %s is min %s / max %s (expected exactly 1)" % (
             fname, body.qname, cnt[0], "unbounded" if cnt[1] == INF else cnt[1]), [body.loc(direct[0])])
     if travs:
@@ -359,12 +361,13 @@ def coverage(prog, body, src, family, start=0, region=None, ends=None, depth=0):
             hdr = tr.header
             sub = coverage(prog, body, Src(("elem", hdr)), family, start=tr.some_bb, region=set(tr.loop), ends=[hdr], depth=depth + 1)
             if sub.status == "once":
-                return Cov("once", "full-forward `for`, each element: " + sub.detail, [body.loc(hdr)] + sub.sites)
+                return Cov("once", "full-forward `for`, each element: " + sub.detail, [body.loc(hdr)] + sub.sites, shape=("for", sub.shape))
             return Cov(sub.status, "per-element coverage inside loop at %s: %s" % (body.loc(hdr), sub.detail), sub.sites or [body.loc(hdr)])
         clo = tr.closure
         sub = coverage(prog, clo, Src(("param", 2)), family, depth=depth + 1)
         if sub.status == "once":
-            return Cov("once", "full %s with closure, each element: %s" % (tr.consumer.name, sub.detail), [body.loc(tr.header)] + sub.sites)
+            return Cov("once", "full %s with closure, each element: %s" % (tr.consumer.name, sub.detail), [body.loc(tr.header)] + sub.sites,
+                       shape=(("par_" if "rayon" in (tr.consumer.trait or "") else "") + tr.consumer.name, sub.shape))
         return Cov(sub.status, "per-element coverage inside closure %s: %s" % (clo.qname, sub.detail), sub.sites or [clo.loc()])
     # closure capture
     if len(captures) > 1:
@@ -392,7 +395,7 @@ def coverage(prog, body, src, family, start=0, region=None, ends=None, depth=0):
     sub = coverage(prog, clo, Src(("upvar", name), rest), family, depth=depth + 1)
     if sub.status == "once":
         return Cov("once", "via closure run once by %s: %s" % ("/".join(sorted(set(c.name for _, c in takers))), sub.detail),
-                   [body.loc(takers[0][0])] + sub.sites)
+                   [body.loc(takers[0][0])] + sub.sites, shape=("closure:" + "/".join(sorted(set(c.name for _, c in takers))), sub.shape))
     return Cov("bad" if sub.status == "bad" else "never", "inside closure %s: %s" % (clo.qname, sub.detail), sub.sites or [clo.loc()])
 
 
